@@ -104,6 +104,64 @@ func c14f5DetailWrites(p *an.Prog, k *c14f5Kind) []c14f5Write {
 	return out
 }
 
+// c14f5CompletedInTheSameRun reports whether control, having executed the
+// store at w, necessarily executes one of the stores in completes next, with
+// nothing in between but plain stores: assignments that contain no call, no
+// function literal, no channel operation and no read of a rescanStatus field.
+// Such a run has a single entry and a single way through, so the order of its
+// independent stores cannot be observed: `status = complete; details = d` and
+// `details = d; status = complete` are the same adoption.
+func c14f5CompletedInTheSameRun(f *an.Func, w an.Site, completes []an.Site) bool {
+	goal := map[*flow.Vertex]bool{}
+	for _, c := range completes {
+		goal[c.V] = true
+	}
+	plain := func(v *flow.Vertex) bool {
+		if v.Kind == flow.KJoin {
+			return true
+		}
+		as, ok := v.Node.(*ast.AssignStmt)
+		if v.Kind != flow.KStmt || !ok {
+			return false
+		}
+		pure := true
+		ast.Inspect(as, func(n ast.Node) bool {
+			switch x := n.(type) {
+			case *ast.CallExpr, *ast.FuncLit:
+				pure = false
+			case *ast.UnaryExpr:
+				if x.Op.String() == "<-" {
+					pure = false
+				}
+			case *ast.SelectorExpr:
+				if x.Sel.Name == "rescanStatus" {
+					pure = false
+				}
+			}
+			return pure
+		})
+		return pure
+	}
+	if w.V == nil || !plain(w.V) {
+		return false
+	}
+	v := w.V
+	for steps := 0; steps < 16; steps++ {
+		if len(v.Out) != 1 || v.Out[0].Kind != flow.EPlain {
+			return false
+		}
+		v = v.Out[0].To
+		if goal[v] {
+			// the completing store itself is entered only through this run
+			return len(v.In) == 1
+		}
+		if len(v.In) != 1 || !plain(v) {
+			return false
+		}
+	}
+	return false
+}
+
 // c14f5Sources returns the canonical forms of every expression assigned to
 // the local obj in the root function of f (`x, ok := m[k]` yields m[k]).
 func c14f5Sources(f *an.Func, obj types.Object) []string {
@@ -551,7 +609,15 @@ func c14f5Rules(r *an.Run) {
 							others = append(others, s)
 						}
 					}
-					before(o, f, an.Text(w.base)+".rescanStatus = rescanComplete", completes, "the adoption of details", []an.Site{w.site})
+					if len(completes) > 0 && !f.Before(completes, w.site) && c14f5CompletedInTheSameRun(f, w.site, completes) {
+						// `set.details = d; set.rescanStatus = rescanComplete`: the two
+						// stores are one straight run of plain stores (no call, no branch,
+						// no read of the status in between), which nothing can observe in
+						// the swapped order (the notifier's lock is held).
+						o.Site("%s: the adoption of details at %s is completed by the store of rescanComplete in the same run of stores", f.ID, w.site.Where())
+					} else {
+						before(o, f, an.Text(w.base)+".rescanStatus = rescanComplete", completes, "the adoption of details", []an.Site{w.site})
+					}
 					stop := map[*flow.Vertex]bool{}
 					for _, c := range completes {
 						stop[c.V] = true
